@@ -2,6 +2,8 @@ import Chess.Lemmas.Reach
 import Chess.Lemmas.SpecSums
 import Chess.Lemmas.ScoreRangePop
 import Chess.Lemmas.ScoreRangeExamples
+import Chess.Lemmas.FnsEquiv.Piece
+import Chess.Lemmas.FnsEquiv.Search
 
 /-!
 # C16 — the evaluation score is the piece-square sum of the board
@@ -73,3 +75,14 @@ end Chess.Props.C16
 #print axioms Chess.Props.C16.score_fits_i16
 #print axioms Chess.Props.C16.every_intermediate_score_fits_i16
 #print axioms Chess.Props.C16.material_bound_needed
+
+/-! ### Translation tie (C16.T)
+`tools/translate.py` regenerates `Chess/Gen/Fns.lean` from the Rust text of the leaf functions on every run (a
+parser, not patterns); the theorems below — proved in `Chess/Lemmas/FnsEquiv/*` and re-checked by the kernel whenever
+the generated term changes — say that the TRANSLATED code equals the hand-written model this file's theorems are
+about, for `Piece::score` on the engine's own tables in both phases (rank flip for White, sign by owner), the material values and the endgame threshold. A rewrite of the Rust text that keeps the meaning leaves them true; one that changes it breaks the
+theorem named after the function. -/
+#print axioms Chess.FnsEquiv.Piece_score_eq
+#print axioms Chess.FnsEquiv.PieceType_material_value_eq
+#print axioms Chess.FnsEquiv.Piece_material_value_eq
+#print axioms Chess.FnsEquiv.ENDGAME_THRESHOLD_eq
